@@ -489,13 +489,13 @@ func pickSize(rg *rand.Rand) int {
 	switch x := rg.Intn(100); {
 	case x < 4:
 		return 1 + rg.Intn(2)
-	case x < 16:
+	case x < 24:
 		return 3
-	case x < 44:
+	case x < 60:
 		return 4
-	case x < 72:
-		return 5
 	case x < 76:
+		return 5
+	case x < 78:
 		return 6
 	default:
 		return 7 + rg.Intn(6)
